@@ -126,6 +126,9 @@ def _strategy(draw):
                                             "ifdef": draw(st.sampled_from([None, None, None, "FLEX"]))})
         mols.append({"name": f"MOL{mi}", "atoms": atoms, "inter": inter, "count": draw(st.integers(0 if mi else 1, 4))})
     order = list(draw(st.permutations(range(len(mols)))))
+    if draw(st.integers(0, 2)) == 0:
+        # a molecule name may stand on several lines of [ molecules ], also with other names in between
+        order.insert(draw(st.integers(0, len(order))), draw(st.sampled_from(order)))
     return {"comb": comb, "gen_pairs": draw(st.booleans()), "opls": opls, "atomtypes": atomtypes,
             "nonbond": nonbond, "mols": mols, "mol_order": order, "tables": tables, "defines": defines,
             "rng": draw(st.integers(0, 2**31 - 1))}
